@@ -119,7 +119,7 @@ theorem cloopLoop_mono (run : St → Res) (hrun : Mono run) (ls : CLoopSpec) :
             | stop st => rw [hio] at h4; exact h4.trans (CMono.of_eq rfl rfl rfl)
             | next st =>
               rw [hio] at h4
-              exact (h4.trans (CMono.of_eq rfl rfl rfl)).trans (ih _ _ _ { st with c := st.c.setStatic ls.cnt (Val.int (stepVal ls.cntOp v)) })
+              exact (h4.trans (CMono.of_eq rfl rfl rfl)).trans (ih _ _ _ { st with c := { st.c.setStatic ls.cnt (Val.int (stepVal ls.cntOp v)) with err := none } })
           · cases hio : iterAfterBody { rb0 with st := { rb0.st with c := { rb0.st.c with chQB := rs1.c.chQB } } } with
             | abort st => rw [hio] at h4; exact h4
             | stop st => exact h3.trans (CMono.of_eq rfl rfl rfl)
@@ -197,7 +197,7 @@ theorem rloopQB_mono (run : St → Res) (hrun : Mono run) (runElse : Option (St 
   unfold rloopQB
   cases cmpPath s.c.vars s.c.chQB ls.src with
   | none => exact CMono.of_eq rfl rfl rfl
-  | some p => exact rloopWith_mono run hrun runElse helse { ls with src := p } s
+  | some p => exact (CMono.of_eq rfl rfl rfl).trans (rloopWith_mono run hrun runElse helse { ls with src := p } { s with c := { s.c with err := none } })
 
 theorem loopNode_mono (loop : St → Res) (hl : Mono loop) : Mono (loopNode loop) := by
   intro s
